@@ -520,6 +520,114 @@ def c17_point_pos(Npos):
     return go()
 
 
+def c17_point_pos_uncached():
+    """Cache1D.integrate_point_pos with a positive gamma that is not in the cache and demo_sel_func given: the spectrum is computed by
+    demo_sel_func(params + (gammapos,), ns, pts), the cache grows by exactly that gamma and that spectrum *as computed (theta = 1)*, and the result is
+    (1 - ppos) * continuous part + theta * ppos * that spectrum - so that a later call with another theta finds a theta-free entry."""
+    oid = 'C17/Cache1D_mod.py:Cache1D.integrate_point_pos/uncached'
+    fn = 'dadi/DFE/Cache1D_mod.py::Cache1D.integrate_point_pos'
+
+    @guarded(oid, fn)
+    def go():
+        def ah(ex_, fref, a, kw, ctx):
+            nm = vrepr(fref)
+            if isinstance(fref, FuncRef) and fref.qualname == 'make_extrap_func':
+                return a[0]          # by contract (C07): with a single grid setting the wrapped function returns func(args, pts) itself
+            if nm.endswith('Spectrum)') or 'Spectrum_mod.Spectrum' in nm or (isinstance(fref, ClassRef) and fref.node.name == 'Spectrum'):
+                return a[0]
+            return NotImplemented
+        ex = Executor()
+        ex.abstract_hook = ah
+        f = ex.func('dadi/DFE/Cache1D_mod.py', 'Cache1D.integrate_point_pos')
+        pp, gnew, theta = z3.Reals('ppos gnew theta')
+        gc = reals('gcached', 2)
+        pdfp = reals('pdfparam', 2)
+        sc = [[z3.Real('S%d_%d' % (i, j)) for j in range(2)] for i in range(2)]
+        snew = reals('Snew', 2)
+        cont = reals('pdf_fs', 2)
+        me = Tm('self')
+        me.attrs.update(gammas=VList(list(gc), 'ndarray'), spectra=VList([VList(list(r), 'ndarray') for r in sc], 'ndarray'),
+                        params=(z3.Real('demo_param'),), ns=Tm('ns'), pts=Tm('pts'))
+        me.attrs['integrate'] = PyFn(lambda *a, **kw: VList(list(cont), 'ndarray'), 'self.integrate')
+        dcalls = []
+
+        def demo(params, ns, pts):
+            dcalls.append((params, ns, pts))
+            return VList(list(snew), 'ndarray')          # a spectrum, by value (its .data are these entries)
+        hy = [gnew != g for g in gc] + [gc[0] != gc[1]]
+        paths = ex.run(f, [me, tuple(pdfp) + (pp, gnew), None, Tm('sel_dist'), theta], dict(Npos=1, demo_sel_func=PyFn(demo, 'demo_sel_func')), base_pc=hy)
+        out = []
+        if len(paths) != 1 or paths[0].outcome != 'return':
+            return [struct(oid, False, 'expected one returning path: %r' % paths[:2], fn, undecided=True)]
+        p = paths[0]
+        ok = len(dcalls) == 1 and [vrepr(x) for x in ex.iterate(dcalls[0][0])] == ['demo_param', 'gnew'] and dcalls[0][1] is me.attrs['ns'] and dcalls[0][2] is me.attrs['pts']
+        out.append(struct(oid + '.computed-once', bool(ok), 'demo_sel_func(self.params + (gammapos,), self.ns, self.pts) exactly once: %s' % vrepr(dcalls)[:160], fn))
+        gl = [vrepr(x) for x in ex.iterate(me.attrs['gammas'])]
+        out.append(struct(oid + '.cache-gammas', gl == ['gcached0', 'gcached1', 'gnew'], 'the cache now lists the new gamma after the cached ones: %s' % gl, fn))
+        rows = ex.iterate(me.attrs['spectra']) if isinstance(me.attrs['spectra'], VList) else []
+        if len(rows) != 3 or not all(isinstance(r_, VList) and len(r_.items) == 2 for r_ in rows):
+            out.append(struct(oid + '.cache-spectra', False, 'the cached spectra are not 3 rows of 2 entries: %s' % vrepr(me.attrs['spectra'])[:200], fn, undecided=True))
+        else:
+            for i_ in range(3):
+                for j_ in range(2):
+                    want = sc[i_][j_] if i_ < 2 else snew[j_]
+                    out.append(prove_eq('%s.cache-spectra[%d,%d]' % (oid, i_, j_), hy + list(p.pc), rows[i_].items[j_], want, fn))
+        res = ex.iterate(p.value) if isinstance(exact(p.value), VList) else None
+        if res is None or len(res) != 2:
+            out.append(struct(oid + '.value', False, 'result is not a 2-entry spectrum: %s' % vrepr(p.value)[:200], fn, undecided=True))
+        else:
+            for j_ in range(2):
+                out.append(prove_eq('%s.value[%d]' % (oid, j_), hy + list(p.pc), res[j_], (1 - pp) * cont[j_] + theta * pp * snew[j_], fn))
+        return out
+    return go()
+
+
+def c05_betabinom_convolution(i, n, ploidy):
+    """Numerics.BetaBinomConvolution(i, n, alpha, beta, ploidy): P(sum of n iid beta-binomial(ploidy, alpha, beta) variables = i)
+         = sum over the multisets {c_0..c_ploidy} of n individual counts with sum_p p c_p = i of  multinomial(c) * prod_p BB(p)^c_p
+         = sum_k exp( multinomln(c_k) + sum_{p=0..ploidy} c_k[p] * BetaBinomln(p, ploidy, alpha, beta) )     -- every p from 0 to ploidy inclusive.
+    BetaBinomln, multinomln (log-weights, uninterpreted) and the partition table of cached_part_precalc(i, n, maxval=ploidy) by contract (the table is
+    the exhaustive one for these i, n, ploidy; C18 / memo-key obligations cover it); exp uninterpreted."""
+    oid = 'C05/Numerics.py:BetaBinomConvolution/i%d_n%d_ploidy%d' % (i, n, ploidy)
+    fn = 'dadi/Numerics.py::BetaBinomConvolution'
+
+    @guarded(oid, fn)
+    def go():
+        al, be = z3.Reals('alpha beta')
+        L = uf('BetaBinomln', 4)
+        parts = [c for c in itertools.combinations_with_replacement(range(ploidy + 1), n) if sum(c) == i]
+        counts = [[c.count(v) for v in range(ploidy + 1)] for c in parts]
+        multi = [z3.Real('multinomln_%d' % k) for k in range(len(parts))]
+        seen = []
+
+        def pol(fr):
+            if fr.qualname == 'cached_part_precalc':
+                def stub(ex_, f_, a, kw):
+                    seen.append((list(a), dict(kw)))
+                    return (VList([VList(list(c)) for c in counts]), VList(list(multi)))
+                return stub
+            if fr.qualname == 'BetaBinomln':
+                return lambda ex_, f_, a, kw: L(*[to_real(exact(x)) for x in a])
+            return 'inline' if fr.qualname == 'BetaBinomConvolution' else 'abstract'
+        ex = Executor(policy=pol)
+        f = ex.func('dadi/Numerics.py', 'BetaBinomConvolution')
+        paths = ex.run(f, [i, n, al, be], dict(ploidy=ploidy))
+        if len(paths) != 1 or paths[0].outcome != 'return':
+            return [struct(oid, False, 'expected one returning path: %r' % paths[:2], fn, undecided=True)]
+        out = []
+        a, kw = seen[0] if seen else ([], {})
+        bound = dict(zip(['x', 'n', 'minval', 'maxval'], a)); bound.update(kw)
+        ok = len(seen) == 1 and bound.get('x') == i and bound.get('n') == n and bound.get('minval', 0) == 0 and bound.get('maxval', 2) == ploidy
+        out.append(struct(oid + '.partition-table', bool(ok), 'cached_part_precalc(i, n, minval 0, maxval = ploidy) once: %s' % (bound,), fn))
+        E = uf('exp')
+        want = z3.RealVal(0)
+        for c, m in zip(counts, multi):
+            want = want + E(sum((c[p] * L(z3.RealVal(p), z3.RealVal(ploidy), al, be) for p in range(ploidy + 1)), z3.RealVal(0)) + m)
+        out.append(prove_eq(oid + '.value', list(paths[0].pc), paths[0].value, want, fn))
+        return out
+    return go()
+
+
 # ---------------------------------------------------------------- C20: frame of the integrators (syntactic dataflow)
 def c20_integrator_frame():
     oid = 'C20/Integration.py'
